@@ -85,7 +85,7 @@ class Opt:
         self.lazy_after_indented = True    # (was known finding C03-lazy-after-indented-in-quote, repaired in c774fd1)
         self.setext_space_hard_break = True    # (was known finding C03-setext-trailing-space-hard-break, repaired in 6a8c723)
         self.tilde_code_in_strike = False      # known finding C03-strike-vs-code-tilde
-        self.empty_last_item = False           # known finding C03-empty-last-item-swallows-blank
+        self.empty_last_item = True            # (was known finding C03-empty-last-item-swallows-blank, repaired in 4ed4651)
         self.table_escaped_pipe = True         # (was off for the round-trip profiles: C09-escaped-pipe-in-table-cell, repaired in f65540f)
         self.table_first_in_item = False   # known finding C03-table-starts-later-list-item
         self.para_after_closed_container = True    # (was known finding C03-lazy-after-nonparagraph-*, repaired in c774fd1)
